@@ -244,6 +244,7 @@ func crashSignature(stderr string) (sig, detail string) {
 	if i := strings.Index(class, ":"); i > 0 {
 		rest := strings.TrimSpace(class[i+1:])
 		// keep the error kind, drop addresses / indexes
+		rest = regexp.MustCompile("`[^`]*`").ReplaceAllString(rest, "`#`") // user data quoted in the message
 		rest = regexp.MustCompile(`\[[^\]]*\]|0x[0-9a-f]+|\d+`).ReplaceAllString(rest, "#")
 		if len(rest) > 80 {
 			rest = rest[:80]
